@@ -13,7 +13,7 @@ KINDS = {"main": dict(imports=IMPORTS, type="fcase", mismatch="mismatches", nont
 SHARD = 40
 RULE = ("random Stack trees (depth/width <= 3 quick, <= 4 thorough) over 6 real frames (plain function, method, classmethod, "
         "module without / with empty __name__, non-ASCII names and source), every field drawn independently: root/leaf None or objects "
-        "with adversarial reprs (marker look-alikes, blanks, non-ASCII), error None / plain / multi-line / with traceback / chained, "
+        "with adversarial reprs (marker look-alikes, blanks, non-ASCII), error None / plain / multi-line / with traceback / chained / containing every str.splitlines() break character (\\r, \\r\\n, \\v, \\f, \\x1c-\\x1e, \\x85, \\u2028, \\u2029; F20, fixed, ordinary cases), "
         "lineno default / 0 / blank line / past EOF, hide, hide_line, contexts with obj x varname x start_line x description x async x "
         "exiting x hide, inner stack, child contexts, child stacks (stub or populated, with or without root); plus the full product of the "
         "context-line fields (as frame context and as child context) and all child sequences of length <= 3 (quick <= 2) over 8 child "
@@ -23,7 +23,7 @@ CONFIG = dict(
     coq=["C18"], level="proof",
     claim=("Coq theorems about an executable model of Stack/Frame/Context._format (all trees, all option sets): the string composition "
            "with the code's startswith test equals the marker-wise rendering of structured lines, a column-state parser reads the "
-           "structured lines back into the tree's visible skeleton, ascii_only is the marker-wise image, hidden/show_contexts laws; "
+           "structured lines back into the tree's visible skeleton (fuel taken from the text, proved sufficient), every element is one newline-terminated line unless a non-error payload contains a newline (F12), ascii_only is the marker-wise image, hidden/show_contexts laws; "
            "tied to the code by byte-for-byte comparison (inside Coq) of format() output on generated trees over real frames, with the "
            "marker table regenerated from _types.py on every run."),
     design_ref="DESIGN.md section 5 C18/C19",
@@ -31,12 +31,7 @@ CONFIG = dict(
                   "enter the model as inputs computed by the harness (harness/fmt_gen.py), not as modelled behaviour"],
     assumptions=["Frame.clsname/modname/filename/funcname are taken from the frame as stackscope reports them (not part of formatting)",
                  "line numbers are non-negative"],
-    unproved_legs=["C18_newline_terminated (every element ends in exactly one newline when no payload has a newline) is NOT a Coq "
-                   "theorem: it is checked by the direct oracle on every generated case (F12 = its known counterexample, "
-                   "C18_F12_refuted); C18_str_is_concat is definitional in the model and checked by the direct oracle on the code",
-                   "C18_roundtrip is stated for read_back_fuel with the explicit bound ht_stack t <= n; that read_back's own fuel "
-                   "(1 + longest marker chain) suffices is evaluated on every case inside Coq, not proved",
-                   "read-back is proved on structured lines (marker chain x body); lexing marker chains out of the rendered characters "
+    unproved_legs=["read-back is proved on structured lines (marker chain x body); lexing marker chains out of the rendered characters "
                    "is not modelled: the strings are tied to the structured lines by C18_string_level (rendering), and the markers that "
                    "can follow one another are shown pairwise distinct as strings (C18_markers_wf) but no string-level parser is proved"],
     NOTES=("skeleton identifies inner_stack=None with an empty inner stack and treats child task stacks and child contexts both as "
